@@ -171,19 +171,34 @@ impl<'a> Lexer<'a> {
     }
 
     fn lex_simple_string_after_start(&mut self, end: char) -> String {
-        let mut acc = String::new();
+        // only whole characters are pushed in string mode, so this is valid UTF-8
+        String::from_utf8(self.lex_string_bytes_after_start(end, false)).expect("chars are utf-8")
+    }
+
+    // In a bytes literal (raw_hex) a \xHH escape denotes the byte HH itself; in a string it denotes
+    // the character U+00HH.
+    fn lex_string_bytes_after_start(&mut self, end: char, raw_hex: bool) -> Vec<u8> {
+        fn push_char(acc: &mut Vec<u8>, c: char) {
+            let mut buf = [0u8; 4];
+            acc.extend_from_slice(c.encode_utf8(&mut buf).as_bytes());
+        }
+        let mut acc: Vec<u8> = Vec::new();
         while self.peek() != Some(&end) {
             match self.next() {
                 Some('\\') => match self.next() {
-                    Some('n') => acc.push('\n'),
-                    Some('r') => acc.push('\r'),
-                    Some('t') => acc.push('\t'),
-                    Some('0') => acc.push('\0'),
-                    Some(c @ ('\\' | '\'' | '\"')) => acc.push(c),
+                    Some('n') => push_char(&mut acc, '\n'),
+                    Some('r') => push_char(&mut acc, '\r'),
+                    Some('t') => push_char(&mut acc, '\t'),
+                    Some('0') => push_char(&mut acc, '\0'),
+                    Some(c @ ('\\' | '\'' | '\"')) => push_char(&mut acc, c),
                     Some('x') => {
                         if let Some(d1) = self.next().and_then(|c| c.to_digit(16)) {
                             if let Some(d2) = self.next().and_then(|c| c.to_digit(16)) {
-                                acc.push(char::from_u32(d1 * 16 + d2).unwrap())
+                                if raw_hex {
+                                    acc.push((d1 * 16 + d2) as u8)
+                                } else {
+                                    push_char(&mut acc, char::from_u32(d1 * 16 + d2).unwrap())
+                                }
                             } else {
                                 self.emit(Token::Invalid(format!(
                                     "lexing: string literal: bad hex escape"
@@ -241,7 +256,7 @@ impl<'a> Lexer<'a> {
                             None => {}
                         }
                         match char::from_u32(x) {
-                            Some(c) => acc.push(c),
+                            Some(c) => push_char(&mut acc, c),
                             None => {
                                 self.emit(Token::Invalid(format!(
                                     "lexing: string literal: u result too big: {}",
@@ -265,7 +280,7 @@ impl<'a> Lexer<'a> {
                         break;
                     }
                 },
-                Some(c) => acc.push(c),
+                Some(c) => push_char(&mut acc, c),
                 None => {
                     self.emit(Token::Invalid(format!("lexing: string literal hit eof")));
                     break;
@@ -528,10 +543,8 @@ impl<'a> Lexer<'a> {
                             if let Some(delim @ ('\'' | '"')) = self.peek() {
                                 let delim = *delim;
                                 self.next();
-                                // TODO this isn't how it works we need to deal with hex
-                                // escapes differently at least
-                                let s = self.lex_simple_string_after_start(delim);
-                                self.emit(Token::BytesLit(Rc::new(s.into_bytes())))
+                                let b = self.lex_string_bytes_after_start(delim, true);
+                                self.emit(Token::BytesLit(Rc::new(b)))
                             } else if self.peek() == Some(&'[') {
                                 self.next();
                                 self.emit(Token::BLeftBracket);
